@@ -265,6 +265,9 @@ def text_pool(rng, big):
                                 out.append(c)
                                 break
             out.append(cps(text(q, kind, bytes(plen(kind)))))
+            # payloads with long runs of leading zero bytes: the shortest texts a chain has (26 characters on mainnet)
+            for tail in (b'\x01', b'\x08', b'\x01\x02', b'\xff', b'\x00\x01'):
+                out.append(cps(text(q, kind, bytes(plen(kind) - len(tail)) + tail)))
     hrps = ['bc', 'tb', 'bcrt']
     # witness versions 1..16 (BIP173 checksum), program lengths 2..40; version 0 with other lengths
     for hrp in hrps:
